@@ -36,7 +36,10 @@ def write_evidence(check, tier, seed, agg, wall, violations_n, extra_assumptions
     cov = {
         'evaluations': agg['runs'],
         'distinct_nontrivial': len(agg['nontrivial_digests']),
-        'rule': ev.get('rule', '') + ' A run is non-trivial when at least one fault fired, or at least one '
+        'rule': ev.get('rule', '') + ' Scheduling per run (seeded): uniform random choice among the runnable threads at '
+                'every blocking point, optionally with line-level pre-emption of cflib code (mean 3-40 lines), stalls '
+                '(virtual time passes although threads are runnable), in 20 % of the random runs PCT priority schedules '
+                '(depth 1-3) and in 15 % thread starvation. A run is non-trivial when at least one fault fired, or at least one '
                 'pre-emptive context switch or stall happened, or the scenario marked it (directed sweep member); '
                 'distinct = distinct SHA-256 trace digests among those runs.',
         'samples': agg['samples'][:6],
